@@ -182,7 +182,7 @@ def edits_for(root):
     return ed
 
 
-def apply_edit(root, e):
+def apply_edit(root, e, other_side=False):
     """returns False when the edit is not applicable to this tree"""
     k = e[0]
     if k == 'noop':
@@ -194,7 +194,11 @@ def apply_edit(root, e):
         _set(tgt, e[2], e[3])
         return True
     if k == 'equal_ud':
-        tgt.set_user_data(UserData({'same': [1, 2]}))
+        # the same JSON value written two ways: as an object, and as text with the members in another order
+        if other_side:
+            tgt.set_user_data(UserData('{"other": {"q": 2, "p": 1},  "same": [1, 2]}'))
+        else:
+            tgt.set_user_data(UserData({'same': [1, 2], 'other': {'p': 1, 'q': 2}}))
         return 'equal_ud'
     if k == 'add':
         what, name, kind = e[2], e[3], e[4]
@@ -363,7 +367,7 @@ def eval_case(case):
             return {'v': [], 'nt': None, 'out': 'inapplicable'}
         if r == 'equal_ud':
             # equal-valued user data set on BOTH sides (two distinct objects)
-            apply_edit(x, _tup(e))
+            apply_edit(x, _tup(e), other_side=True)
             equal_ud = True
     v = []
     ctx = f'[base {base} edits {edits}]'
